@@ -1,14 +1,14 @@
 (* C06 — property theorems (statements only; proofs in Proofs*.v) *)
 From Coq Require Import NArith List Bool Arith.
 Import ListNotations.
-From LTV.C06 Require Import ParamsGen Model Proofs ProofsInv ProofsRun ProofsOcc ProofsFull ProofsRetry ProofsKs ProofsKs2 ProofsKs3 ModelSend ProofsSend.
+From LTV.C06 Require Import ParamsProbe Model Proofs ProofsInv ProofsRun ProofsOcc ProofsFull ProofsRetry ProofsKs ProofsKs2 ProofsKs3 ModelSend ProofsSend.
 
 Theorem params_ok_now : params_ok = true.
 Proof. exact Proofs.params_ok_now. Qed.
 Print Assumptions params_ok_now.
 
 (* For every policy (15), direction, remote offer {plain, MSE provide 1,2,3}, pad lengths in
-   {0,512}^2 and IA on/off, the modelled handshake run against a protocol-following peer
+   {0,1,255,511,512}^2 and IA on/off, the modelled handshake run against a protocol-following peer
    succeeds iff a connection type is allowed by both sides, with a mode both allow, the preferred
    one when both are possible, correctly aligned ciphers and at most 512 unread bytes; at most one
    retry. Reading: the stream policy constrains MSE-negotiated streams only (the code's reading;
@@ -16,14 +16,14 @@ Print Assumptions params_ok_now.
    plain-only remote, which since /repo 3196365 fails without a plaintext retry. *)
 Theorem negotiation_table :
   forall incoming p o pa pb ia,
-    In p all_policies -> In o all_offers -> In pa [0; 512] -> In pb [0; 512] ->
+    In p all_policies -> In o all_offers -> In pa [0; 1; 255; 511; 512] -> In pb [0; 1; 255; 511; 512] ->
     noretry_cell incoming p o = false ->
     spec_ok false incoming p o (negotiate incoming p o pa pb ia 0) = true.
 Proof. exact Proofs.negotiation_table. Qed.
 Print Assumptions negotiation_table.
 
 Theorem noretry_cell_fails_cleanly :
-  forall pa pb, In pa [0; 512] -> In pb [0; 512] ->
+  forall pa pb, In pa [0; 1; 255; 511; 512] -> In pb [0; 1; 255; 511; 512] ->
     negotiate false (mkPolicy Prefer Require false Allow) OPlain pa pb false 0 = NFail 1.
 Proof. exact Proofs.noretry_cell_fails_cleanly. Qed.
 Print Assumptions noretry_cell_fails_cleanly.
